@@ -177,6 +177,9 @@ type World struct {
 	// AfterPrompt, when set (with PromptAcks), is called inside Transport.Write after the client's reader has consumed
 	// and dispatched the broker's answer to request p, before Write returns
 	AfterPrompt func(t *Transport, p *Pkt)
+	// OnActive, when set, is called inside the client's ConnState callback when connection g reports Active (i.e. inside
+	// BaseClient.Connect, after the CONNACK was accepted and before Connect returns)
+	OnActive func(g int)
 }
 
 // NewWorld creates a world with the given plan.
@@ -379,6 +382,9 @@ func (w *World) Dial(ctx context.Context) (*mqtt.BaseClient, error) {
 			es = err.Error()
 		}
 		w.Rec.Emit(Event{"e": "ConnState", "g": g, "s": s.String(), "err": es, "cls": ErrClass(err)})
+		if s == mqtt.StateActive && w.OnActive != nil {
+			w.OnActive(g)
+		}
 	}
 	w.conns = append(w.conns, t)
 	w.Rec.Emit(Event{"e": "Dial", "n": n, "res": "ok", "g": t.G, "open": open})
